@@ -799,7 +799,7 @@ func main() {
 	}
 	childEnv = append(os.Environ(), childEnvVar+"=1", "GOMAXPROCS=1")
 
-	maxComp, lead, idLen, budget := 2, 2, 4, 100*time.Second // ~10 s on an idle machine; the budget only matters under heavy load
+	maxComp, lead, idLen, budget := 2, 2, 4, 100*time.Second // measured 8-30 s wall at machine load ~60, 65-75 s at load ~110 (16 workers); the budget only cuts under heavier load
 	if run.Thorough() {
 		maxComp, lead, idLen, budget = 3, 3, 5, 800*time.Second
 	}
@@ -1047,7 +1047,7 @@ func main() {
 				failing += f.Count
 				note(soloFP(u.Scheme, f.Clause, u.Root), "A|"+caseKey(u.Root, f.Name), f.Detail, f.Count)
 			}
-			if j.sp.Steps[0].Lo == 0 && (u.Root == "/" || u.Root == "/a/b/") && sr.Sample != nil {
+			if j.sp.Steps[0].Lo == 0 && (u.Root == "/" || (u.Root == "/a/b/" && u.Scheme == namepath.DockerTag)) && sr.Sample != nil {
 				run.Sample(sr.Sample)
 			}
 		}
